@@ -60,7 +60,7 @@ class RecLogger(Logger):
 
 
 def mk_market(tick=1, price=300, logger=None, running=True, market_id=0, fundamental=None, cls=Market,
-              sim=None, extra=None):
+              sim=None, extra=None, chunk=None):
     """a real Market, set up through its own setup() and brought to time 0 like the runner does."""
     m = cls(market_id=market_id, prng=random.Random(0), simulator=sim or BareSim(), name=f"m{market_id}",
             logger=logger)
@@ -68,6 +68,8 @@ def mk_market(tick=1, price=300, logger=None, running=True, market_id=0, fundame
     if extra:
         st.update(extra)
     m.setup(st)
+    if chunk is not None:
+        m.chunk_size = chunk      # public instance attribute: storage is extended every `chunk` steps
     m._update_time(next_fundamental_price=price if fundamental is None else fundamental)
     m._is_running = running
     return m
